@@ -96,6 +96,9 @@ func solveAll(obs []*Obligation, dir string, timeoutS int, keep bool) {
 				if ct > 8 {
 					ct = 8
 				}
+				if strings.Contains(o.Name, "#cover:branch:") && ct > 4 {
+					ct = 4
+				}
 				o.Res = RunPortfolio(o.File, ct, "z3-new")
 				if o.Res.Status != "sat" && o.Res.Status != "unsat" {
 					var qf []*Term
@@ -117,8 +120,14 @@ func solveAll(obs []*Obligation, dir string, timeoutS int, keep bool) {
 			} else {
 				qf, full := q.Instantiated(0)
 				done := false
+				defer func() { o.Wall = time.Since(t0).Seconds() }()
+				// a proof found earlier names the hypotheses it used: try exactly those first (see hints.go)
+				if r, ok := tryHints(o.Name, q, dir, 10, keep); ok {
+					o.Res = r
+					done = true
+				}
 				// cheapest attempt first: only the quantifier-free hypotheses connected to the goal through scalar symbols
-				if len(o.Hyps) > 150 || hasHardArith(o.Goal) {
+				if !done && (len(o.Hyps) > 150 || hasHardArith(o.Goal)) {
 					if sl := q.Sliced(sliceRounds()); sl != nil {
 						f := writeQuery(dir, o.Name+".slice", sl.Script(nil))
 						r := RunPortfolio(f, 10, "")
@@ -408,6 +417,8 @@ func cmdFunc(args []string) {
 	verbose := fs.Bool("v", false, "list every obligation")
 	keep := fs.Bool("keep", false, "keep smt files")
 	pkgs := fs.String("pkgs", "./...", "package patterns (comma separated)")
+	only := fs.String("only", "", "solve only the obligations whose name contains this")
+	rec := fs.Bool("record-hints", false, "record proof hints for the selected obligations (whatever the staged pipeline said)")
 	fs.Parse(args)
 	t0 := time.Now()
 	ld, err := loadRepo(repoRoot, strings.Split(*pkgs, ","))
@@ -442,6 +453,23 @@ func cmdFunc(args []string) {
 			continue
 		}
 		t1 := time.Now()
+		if *only != "" {
+			var sel []*Obligation
+			for _, o := range res.Obs {
+				if strings.Contains(o.Name, *only) {
+					sel = append(sel, o)
+				}
+			}
+			res.Obs = sel
+		}
+		if *rec {
+			for _, o := range res.Obs {
+				recordHintFor(o, filepath.Join(verifRoot, "work", "func"))
+			}
+			saveHints()
+			fmt.Printf("hints recorded: %d\n", len(newHints))
+			continue
+		}
 		solveAll(res.Obs, filepath.Join(verifRoot, "work", "func"), *timeout, *keep)
 		nok := 0
 		for _, o := range res.Obs {
